@@ -389,7 +389,7 @@ func main() {
 				overlay[path] = op
 				continue
 			}
-			r := &rw{info: p.TypesInfo, fset: p.Fset, recv2: map[*ast.UnaryExpr]bool{}, owned: map[ast.Node]bool{}, lenCap: map[*ast.CallExpr]string{}, closes: map[*ast.CallExpr]bool{}, makes: map[*ast.CallExpr]bool{}, rngChan: map[*ast.RangeStmt]bool{}, rngMap: map[*ast.RangeStmt]bool{}, consts: map[ast.Expr]bool{}, mapSet: map[*ast.AssignStmt][]ast.Expr{}, harness: strings.HasPrefix(p.PkgPath, "verif/")}
+			r := &rw{info: p.TypesInfo, fset: p.Fset, recv2: map[*ast.UnaryExpr]bool{}, owned: map[ast.Node]bool{}, lenCap: map[*ast.CallExpr]string{}, closes: map[*ast.CallExpr]bool{}, makes: map[*ast.CallExpr]bool{}, rngChan: map[*ast.RangeStmt]bool{}, rngMap: map[*ast.RangeStmt]bool{}, consts: map[ast.Expr]bool{}, mapSet: map[*ast.AssignStmt][]ast.Expr{}, harness: strings.HasPrefix(p.PkgPath, "verif/") && !strings.HasPrefix(p.PkgPath, "verif/selftest/")}
 			astutil.Apply(f, r.pre, r.post)
 			if len(r.errs) > 0 {
 				for _, e := range r.errs {
@@ -425,7 +425,7 @@ func main() {
 			f.Comments = nil
 			f.Doc = nil
 			var buf bytes.Buffer
-			if !strings.HasPrefix(p.PkgPath, "verif/") {
+			if !strings.HasPrefix(p.PkgPath, "verif/") || strings.HasPrefix(p.PkgPath, "verif/selftest/") {
 				// lifts the language version of files of the go-1.14 module (generics) while keeping
 				// the pre-1.22 per-loop loop-variable semantics the code was written for
 				buf.WriteString("//go:build go1.21\n\n")
